@@ -336,7 +336,7 @@ impl Prop for C03 {
         "C03"
     }
     fn rule(&self) -> &'static str {
-        "exhaustive: every form of DWARF 2-5 plus the GNU forms and DW_FORM_indirect (47) x {byte order, address size 1/2/4/8, 32/64-bit, version 2-5} x 3 boundary payloads x 4 neighbour contexts (fixed/variable-size form before and after) x 2 attribute names (one inside, one outside the legacy section-offset rule); random: entries with 1-12 attribute specifications over 60 attribute names (all names with a normalisation rule, the legacy section-offset names, vendor names) x all forms x boundary payloads (block lengths 0/1/127/128/255/300/70000, strings, multi-byte LEB128, sign boundaries), nested indirect <=3, implicit_const, occasional unknown forms. Oracle: form model (dieasm.rs): decoded raw value, advance = encoded length at every attribute, skip_attributes after reading i attributes for every i, advertised fixed size = consumed, name-based normalisation keeps the payload and lands in the class table. Non-trivial = >=3 attributes mixing fixed- and variable-size forms; distinct by choice string / enumeration index."
+        "exhaustive: every form of DWARF 2-5 plus the GNU forms and DW_FORM_indirect (47) x {byte order, address size 1/2/4/8, 32/64-bit, version 2-5} x 3 boundary payloads x 4 neighbour contexts (fixed/variable-size form before and after) x 2 attribute names (one inside, one outside the legacy section-offset rule); random: entries with 1-12 attribute specifications over 60 attribute names (all names with a normalisation rule, the legacy section-offset names, vendor names) x all forms x boundary payloads (block lengths 0/1/127/128/255/300/70000, strings, multi-byte LEB128, sign boundaries), nested indirect <=3, implicit_const, occasional unknown forms. Oracle: form model (dieasm.rs): decoded raw value, advance = encoded length at every attribute, skip_attributes after reading i attributes for every i, advertised fixed size = consumed, name-based normalisation keeps the payload and lands in the class table. Non-trivial = >=3 attributes mixing fixed- and variable-size forms; distinct by choice string / enumeration index. Later additions: every numeric, expression and string accessor of an attribute against its raw value; units whose entry ends with the unit."
     }
     fn assumptions(&self) -> Vec<&'static str> {
         vec![
